@@ -318,6 +318,9 @@ v('C13 C02', 'fire', S, """        self.lla[0] = self.initial_pva[LLA_COLS]
 
 v('C12 C08 C11', 'fire', F, '        time_delta = integrator.get_time() - time', '        time_delta = next_time - time', 'seeded C12: requested instead of integrated interval')
 v('C11', 'fire', F, 'q = np.hstack((gyro_model.v, accel_model.v, gyro_model.q, accel_model.q))', 'q = np.hstack((gyro_model.v, gyro_model.q, accel_model.v, accel_model.q))', 'seeded C11 (same as an own variant)')
+v('C11', 'fire', F, 'increments_batch = increments.loc[np.nextafter(time, next_time) : next_time]', 'increments_batch = increments.iloc[index : next_index]', 'seeded C11 round 2: trajectory cursor slices the increments table')
+v('C12', 'fire', F, "next_increment_index = np.searchsorted(increments.index, next_time,", "next_increment_index = np.searchsorted(integrator.trajectory.index, next_time,", 'cursor from the trajectory axis (one extra leading row) slices the increments')
+v('C11 C12', 'silent', F, '    times = trajectory_nominal.index\n', '    times = np.asarray(trajectory_nominal.index)\n', 'axis alias through asarray')
 
 
 v('C14', 'fire', I, '        result = util.mv_prod(self.transform, readings)', '        result = readings.values @ self.transform', 'seeded C14: simulator applies the transposed transform')
